@@ -182,12 +182,12 @@ PROPS["C17"] = {
 }
 
 PROPS["C08"] = {
-    "units": ["h2_prepare_response"],
+    "units": ["h2_prepare_response", "h2_handle_response"],
     "kani": [],
     "technique": "Verus contract with a loop invariant over the handler's header list on the extracted real h2 prepare_response: the outgoing header list is specified exactly (length prefix ++ kept(user headers) ++ date)",
-    "level_text": "deductive proof, for every status, body size and header list, that the HTTP/2 response head carries no connection-specific header (connection, transfer-encoding, upgrade, keep-alive, proxy-connection), that content-length is present exactly once and equals the body size when the size is known, is absent when the response has no body (1xx/204), that a handler-set content-length is forwarded only for a streaming body, that every other handler header is copied in order, that a date header is added iff absent, and that the body size is forced to None for 1xx/204",
+    "level_text": "deductive proof, for every status, body size and header list, that the HTTP/2 response head carries no connection-specific header (connection, transfer-encoding, upgrade, keep-alive, proxy-connection), that content-length is present exactly once and equals the body size when the size is known, is absent when the response has no body (1xx/204), that a handler-set content-length is forwarded only for a streaming body, that every other handler header is copied in order, that a date header is added iff absent, and that the body size is forced to None for 1xx/204; for handle_response: for EVERY sequence of granted capacities and every chunking (incl. chunks larger than the window and empty chunks) the DATA bytes sent are exactly the concatenation of the body's chunks, each byte once and in order (loop invariants `sent ++ chunk_rest ++ pending == total`), END_STREAM is sent exactly after the last byte, a HEAD request or an empty body ends the stream with the head and sends no DATA, and a stream never reserves more flow-control window than min(pending chunk bytes, 16 KiB)",
     "level_note": "HeaderName is abstracted to the names this function distinguishes; http::HeaderMap insert/append are ghost-list shims; itoa formatting of the length and the date value are opaque",
-    "not_decided": ["handle_response send loop: every body byte is sent exactly once in order for every flow-control capacity sequence (nested loops over poll_fn closures capturing &mut: not yet under contract)", "no body for HEAD (eof_or_head in handle_response)", "stream independence, resets, zero-capacity liveness (h2 crate, spawned tasks)", "Payload::poll_next releases capacity per chunk (h2 crate flow control)"],
+    "not_decided": ["stream independence beyond `a stream never reserves more window than it has data pending` (scheduling between spawned tasks is the h2 crate's)", "liveness when the peer never grants capacity; resets (h2 crate)", "Payload::poll_next releases capacity per chunk (h2 crate flow control)", "suspension points of handle_response (R9: awaits become blocking shim calls)"],
     "assumptions": [],
 }
 
